@@ -631,3 +631,89 @@ func cannotPanic(st ast.Stmt) bool {
 	})
 	return ok
 }
+
+// recoverDefer decides whether a defer statement of fi installs a handler that recovers a panic in the
+// deferred function's own frame and assigns a non-nil value to the function's named error result errObj —
+// as a function literal, or as a named module function that is handed &err.
+func recoverDefer(w *World, fi *FuncInfo, ds *ast.DeferStmt, errObj types.Object) (ok bool, why string) {
+	info := fi.Pkg.TypesInfo
+	if errObj == nil {
+		return false, "the function has no named error result a deferred function could set"
+	}
+	scan := func(body *ast.BlockStmt, hinfo *types.Info, assigned func(l ast.Expr) bool) (hasRecover, assignsErr bool) {
+		ast.Inspect(body, func(m ast.Node) bool {
+			switch y := m.(type) {
+			case *ast.FuncLit:
+				return false // recover() in a nested closure does not stop the panic
+			case *ast.CallExpr:
+				if id, ok := y.Fun.(*ast.Ident); ok && id.Name == "recover" {
+					if _, isB := hinfo.Uses[id].(*types.Builtin); isB {
+						hasRecover = true
+					}
+				}
+			case *ast.AssignStmt:
+				for i, l := range y.Lhs {
+					if assigned(l) && i < len(y.Rhs) {
+						if rid, ok := unparen(y.Rhs[i]).(*ast.Ident); !ok || rid.Name != "nil" {
+							assignsErr = true
+						}
+					} else if assigned(l) && len(y.Rhs) == 1 && len(y.Lhs) > 1 {
+						assignsErr = true // err, ok = r.(error) style
+					}
+				}
+			}
+			return true
+		})
+		return
+	}
+	if fl, isLit := ds.Call.Fun.(*ast.FuncLit); isLit {
+		hr, ae := scan(fl.Body, info, func(l ast.Expr) bool {
+			id, ok := unparen(l).(*ast.Ident)
+			return ok && info.Uses[id] == errObj
+		})
+		switch {
+		case !hr:
+			return false, "the deferred function does not call recover()"
+		case !ae:
+			return false, "the deferred function recovers but does not assign a non-nil error result: a panic would be swallowed"
+		}
+		return true, ""
+	}
+	hf := w.FuncOf(w.calleeOf(info, ds.Call))
+	if hf == nil || hf.Decl.Body == nil {
+		return false, "the deferred call is neither a function literal nor a module function the rule can inspect"
+	}
+	var errParam types.Object
+	pi := 0
+	for _, fl := range hf.Decl.Type.Params.List {
+		for _, nm := range fl.Names {
+			if pi < len(ds.Call.Args) {
+				if u, ok := unparen(ds.Call.Args[pi]).(*ast.UnaryExpr); ok && u.Op == token.AND {
+					if id, ok := unparen(u.X).(*ast.Ident); ok && info.Uses[id] == errObj {
+						errParam = hf.Pkg.TypesInfo.Defs[nm]
+					}
+				}
+			}
+			pi++
+		}
+	}
+	if errParam == nil {
+		return false, "the deferred helper is not handed the address of the error result"
+	}
+	hinfo := hf.Pkg.TypesInfo
+	hr, ae := scan(hf.Decl.Body, hinfo, func(l ast.Expr) bool {
+		st, ok := unparen(l).(*ast.StarExpr)
+		if !ok {
+			return false
+		}
+		id, ok := unparen(st.X).(*ast.Ident)
+		return ok && hinfo.Uses[id] == errParam
+	})
+	switch {
+	case !hr:
+		return false, "the deferred helper does not call recover() in its own frame"
+	case !ae:
+		return false, "the deferred helper recovers but does not assign a non-nil error through the pointer it is given"
+	}
+	return true, ""
+}
